@@ -54,8 +54,11 @@ func vhC18(n int) {
 			}
 			vAssert("C18.free-bits-come-from-the-crypto-rand-stream", found)
 		}
-		s := u.String()
-		vAssert("C18.canonical-8-4-4-4-12-lowercase-hex", s == vhUUIDString(u))
+		if k == 0 {
+			// the rendering itself is decided for every byte pattern by VH_C18_string
+			s := u.String()
+			vAssert("C18.canonical-8-4-4-4-12-lowercase-hex", s == vhUUIDString(u))
+		}
 	}
 	// rendering is injective: fixed layout (proved above) of per-byte hex pairs, and the pair is injective
 	x, y := vByte("lemma.x"), vByte("lemma.y")
@@ -64,3 +67,14 @@ func vhC18(n int) {
 }
 
 func VH_C18_uuid() { vhC18(300) }
+
+// VH_C18_string: the canonical rendering for every 16-byte pattern (all-zero groups, leading zero nibbles, ...).
+func VH_C18_string() {
+	var u uuid.UUID
+	for i := range u {
+		u[i] = vByte("u")
+	}
+	s := u.String()
+	vReach("rendered", true)
+	vAssert("C18.canonical-8-4-4-4-12-lowercase-hex", s == vhUUIDString(&u))
+}
